@@ -13,7 +13,9 @@ def probe_env():
     if _env is not None:
         return _env
     with Lock():
-        p = subprocess.run(["cargo", "build", "--offline", "--message-format=json", "-q"], cwd=HARNESS, capture_output=True, text=True, env=ENV)
+        # only the libraries: the probes must get a verdict even when the harness binary itself no longer compiles against /repo
+        p = subprocess.run(["cargo", "build", "--offline", "--message-format=json", "-q", "-p", "soa_derive", "-p", "serde", "-p", "serde_json"],
+                           cwd=HARNESS, capture_output=True, text=True, env=ENV)
     if p.returncode != 0:
         raise BuildError("cargo build for probes failed:\n" + p.stderr[-3000:])
     arts = {}
